@@ -945,3 +945,5 @@ def check(run, prog):
     rule_ambient(run, prog)
     from .c06_longlived import rule_long_lived
     rule_long_lived(run, prog)               # R-6.7
+    from .c06_memo import rule_memoised_results
+    rule_memoised_results(run, prog)         # R-6.8
